@@ -983,7 +983,14 @@ class Bytes(Construct):
         return f"io.read({self.length})"
 
     def _emitbuild(self, code):
-        return f"(io.write(obj), obj)[1]"
+        code.append("""
+            def build_bytes(obj, io, length):
+                data = integer2bytes(obj, length) if isinstance(obj, int) else obj
+                data = bytes(data) if type(data) is bytearray else data
+                io.write(data)
+                return data
+        """)
+        return f"build_bytes(obj, io, {self.length})"
 
     def _emitfulltype(self, ksy, bitwise):
         return dict(size=self.length)
